@@ -399,3 +399,68 @@ theorem c05_rw_only_by_promotion_or_election (s : Sys) (op : Op) (i : Nat)
     cases h1'
 
 end Jiva.Cluster
+
+namespace Jiva.Cluster
+open Jiva Sys
+
+/-- the writes acknowledged since the volume was last started are part of what the volume holds —
+    no hypothesis on how the volume was stopped before -/
+def InvE (s : Sys) : Prop := ∀ w ∈ s.ackedEpoch, w ∈ s.stream
+
+theorem invE_step (s : Sys) (h : InvE s) (op : Op) : InvE (s.step op).1 := by
+  cases op with
+  | reg i e =>
+    show InvE (s.stepReg i e).1
+    unfold stepReg
+    split
+    · exact h
+    · dsimp only
+      split
+      · exact h
+      · split
+        · exact h
+        · split
+          · intro w hw; cases hw
+          · exact h
+  | write f a =>
+    show InvE (s.stepWrite f a).1
+    unfold stepWrite
+    split
+    · exact h
+    · split
+      · exact h
+      · intro w hw
+        show w ∈ s.stream ++ [s.next]
+        have hw' : w ∈ (if _ then s.ackedEpoch ++ [s.next] else s.ackedEpoch) := hw
+        split at hw'
+        · rcases List.mem_append.mp hw' with h1 | h1
+          · exact List.mem_append_left _ (h w h1)
+          · exact List.mem_append_right _ h1
+        · exact List.mem_append_left _ (h w hw')
+  | add i => show InvE (s.stepAdd i).1; unfold stepAdd; split <;> exact h
+  | setrb i => show InvE (s.stepSetRb i).1; unfold stepSetRb; split <;> exact h
+  | promote i src => show InvE (s.stepPromote i src).1; unfold stepPromote; split <;> exact h
+  | rbdone i => show InvE (s.stepRbDone i).1; unfold stepRbDone; split <;> exact h
+  | remove i => show InvE (s.stepRemove i).1; unfold stepRemove; split <;> exact h
+  | snap => show InvE (s.stepSnap).1; unfold stepSnap; split <;> exact h
+  | stop => exact h
+
+theorem invE_run (ops : List Op) : ∀ s : Sys, InvE s → InvE (s.run ops) := by
+  induction ops with
+  | nil => intro s h; exact h
+  | cons op ops ih => intro s h; exact ih _ (invE_step s h op)
+
+/-- **C02 / C04 at the level of the volume (a successful read reflects every acknowledged write).**
+    ANY history, the volume stopped and restarted in any state: every replica that is RW — the
+    replicas reads are served from — holds every write acknowledged since the volume was last
+    started.  (For the writes acknowledged before the last restart see `c09_restart_serves_acked`.) -/
+theorem c04_rw_replicas_hold_epoch_acks (rf n : Nat) (ops : List Op) :
+    let s := (init rf n).run ops
+    ∀ i, (s.node i).att = .rw → ∀ w ∈ s.ackedEpoch, w ∈ (s.node i).log := by
+  intro s i hi w hw
+  have h0 := inv0_run ops (init rf n) (inv0_init rf n)
+  have he := invE_run ops (init rf n) (fun w hw => by cases hw)
+  rw [(h0.rw i hi).1]
+  exact he w hw
+
+end Jiva.Cluster
